@@ -262,6 +262,20 @@ def run_spec(S, oracle_classes, wall=20, keep=False):
                        msg="".join(traceback.format_exception(type(e), e, e.__traceback__))[-3000:])
     finally:
         signal.signal(signal.SIGALRM, old)
+    f5 = S.get("f5")
+    if f5 is not None and phase != "build" and hasattr(R, "B"):
+        # F5: one invalid sample was planted; if it was served, the run must have ended with an error at that draw
+        d = R.B.dists.get(tuple(f5["key"]))
+        served = d is not None and d.i > f5["i"] and (d.calls[f5["i"]][3] == f5["v"] or (d.calls[f5["i"]][3] != d.calls[f5["i"]][3] and f5["v"] != f5["v"]))
+        R.counts["F5:planted"] += 1
+        if served:
+            R.counts["F5:served"] += 1
+            if res["status"] == "crash" and d.i == f5["i"] + 1 and d.calls[-1][5] == R.step:
+                res.update(status="ok", prop=None, clause=None, msg="", f5="raised:" + res["clause"])
+                R.counts["F5:raised"] += 1
+            elif res["status"] in ("ok", "cap", "crash"):
+                res.update(status="violation", prop="C10", clause="invalid-sample-accepted:" + f5["key"][0],
+                           msg="stream %r returned %r at draw %d and the run went on (status %s %s)" % (f5["key"], f5["v"], f5["i"], res["status"], res.get("clause")))
     if res["status"] in ("ok", "cap"):
         try:
             res["probe"] = all(o.probe() for o in R.oracles)
